@@ -239,7 +239,8 @@ func c17Worker(args []string) int {
 		changed := snapDiff(prev, now)
 		isErr := r.Class != "value"
 		// decoys untouched
-		for rel, content := range c17Decoys {
+		for _, rel := range sortedKeys(c17Decoys) {
+			content := c17Decoys[rel]
 			if rel == "work/existing.gr" {
 				continue
 			}
